@@ -370,6 +370,11 @@ def builder_guards(P, R, xq, b, mark_rule='C06.MPT.1'):
         r = rules.edge_rel(e)
         if not r:
             return st
+        # a local that snapshots a condition (`have_password = (cli->password[0] != 0)`) stands for that condition
+        if is_var(r[0]) and r[0].get('sc') == 'local' and const_of(r[2]) == 0 and r[1] in ('==', '!='):
+            sd = b.single_def(r[0]['name'])
+            if sd and isinstance(sd[1], dict) and ((sd[1].get('k') == 'bin' and sd[1].get('op') in ('==', '!=', '<', '<=', '>', '>=')) or (sd[1].get('k') == 'un' and sd[1].get('op') == '!')):
+                r = rel(sd[1], r[1] == '!=')
         d = dict(st)
         for k, v in classify(r):
             if k in d and d[k] != v and not k.startswith('type:'):
@@ -513,6 +518,10 @@ def builder_guards(P, R, xq, b, mark_rule='C06.MPT.1'):
             why = []
         if (('pwevent', False) in cls or ('notdrone', False) in cls) and not (sts and all(d.get('unsent') is False for d in sts)):
             why = []
+        # the same two tests in the other order: the skip is decided by "it is a login-type service" where the password
+        # is already known to be missing
+        if not why and any(c in (('type:LOGIN', True), ('type:LOGIN_IPR', True)) for c in cls) and sts and all(d.get('pw') is False for d in sts):
+            why = [allowed.get(('pw', False), 'no password for a login-type service')]
         k += 1
         R.ob('C06.GRD.1', bool(why), P.relloc((b.blocks[e.src].get('term') or {}).get('loc', '?')),
              'a service is skipped only for a documented reason (%s)' % (why[0] if why else 'edge %s' % e.describe()), key='skip:%s' % (why[0] if why else e.describe()))
